@@ -75,6 +75,23 @@ def run_unit(unit_dir: str, repo_root: str = '/repo', tier: str = 'quick', keep:
     return run_group([unit_dir], repo_root, tier, keep)[os.path.basename(unit_dir.rstrip('/'))]
 
 
+
+def _run_group_kill(cmd, cwd, env, timeout):
+    """subprocess.run(capture_output, text) in its own process group; on timeout the whole group (cargo, kani-driver,
+    cbmc) is killed so no orphan solver keeps burning memory."""
+    import signal
+    proc = subprocess.Popen(cmd, cwd=cwd, env=env, stdout=subprocess.PIPE, stderr=subprocess.PIPE, text=True, start_new_session=True)
+    try:
+        out, err = proc.communicate(timeout=timeout)
+    except subprocess.TimeoutExpired:
+        try:
+            os.killpg(proc.pid, signal.SIGKILL)
+        except ProcessLookupError:
+            pass
+        proc.communicate()
+        raise
+    return subprocess.CompletedProcess(cmd, proc.returncode, out, err)
+
 def run_group(unit_dirs: list, repo_root: str = '/repo', tier: str = 'quick', keep: bool = False) -> dict:
     """all units must target the same crate: ONE scratch copy, ONE cargo kani build, every harness of every unit"""
     t0 = time.time()
@@ -124,7 +141,7 @@ def run_group(unit_dirs: list, repo_root: str = '/repo', tier: str = 'quick', ke
                 htext = open(os.path.join(x['dir'], tgt['harness_file'])).read()
                 modname = 'verif_kani_' + re.sub(r'\W', '_', x['name']).lower()
                 with open(src_path, 'a') as f:
-                    f.write(f'\n\n#[cfg(kani)]\n#[allow(unused, clippy::all)]\nmod {modname} {{\n    use super::*;\n' + htext + '\n}\n')
+                    f.write(f'\n\n#[cfg(kani)]\n#[allow(unused, clippy::all)]\npub(crate) mod {modname} {{\n    use super::*;\n' + htext + '\n}\n')
                 src = open(src_path).read()
                 for fn in tgt.get('requires_fns', []):
                     if not re.search(r'\bfn\s+' + re.escape(fn) + r'\b', src):
@@ -148,7 +165,7 @@ def run_group(unit_dirs: list, repo_root: str = '/repo', tier: str = 'quick', ke
             x['res']['checker_cmd'] = ' '.join(cmd).replace(work, '<scratch>')
         timeout = sum(x['cfg'].get('timeout_s', 1500) if tier == 'quick' else x['cfg'].get('timeout_thorough_s', 5400) for x in live)
         try:
-            p = subprocess.run(cmd, cwd=work, env=env, capture_output=True, text=True, timeout=timeout)
+            p = _run_group_kill(cmd, work, env, timeout)
             out = p.stdout + '\n' + p.stderr
         except subprocess.TimeoutExpired:
             return fail_all(f'cargo kani timed out after {timeout}s')
